@@ -69,6 +69,10 @@ func gen(p *simrt.Tape) any {
 	for i, n := 0, p.Pick(3); i < n; i++ {
 		pl.Reorgs = append(pl.Reorgs, syssim.Reorg{Slot: startSlot + 1 + uint64(p.Intn(int(2*pl.SlotsPerEpoch))), Kind: p.Pick(3)})
 	}
+	// a slow remote signer keeps preparation and signing steps in flight while later jobs come due
+	if p.Pct(35) {
+		pl.SignerSlow = []time.Duration{200 * time.Millisecond, slot / 3, slot}[p.Pick(3)]
+	}
 	return pl
 }
 
@@ -243,14 +247,14 @@ var focused = [][2]string{
 }
 
 func init() {
-	sim.Register(&sim.Scenario{Property: "C17", Name: "system", Gen: gen, Exec: exec, Weight: 5, Race: true})
+	sim.Register(&sim.Scenario{Property: "C17", Name: "system", Gen: gen, Exec: exec, Weight: 3, Race: true})
 	for _, ref := range focused {
 		src := sim.Find(ref[0], ref[1])
 		if src == nil {
 			continue
 		}
 		inner := src.Exec
-		sim.Register(&sim.Scenario{Property: "C17", Name: ref[0] + "-" + ref[1], Gen: src.Gen, Weight: 1, Race: true, Exec: func(plan any, sched *simrt.Tape) *sim.Outcome {
+		sim.Register(&sim.Scenario{Property: "C17", Name: ref[0] + "-" + ref[1], Gen: src.Gen, Weight: 3, Race: true, Exec: func(plan any, sched *simrt.Tape) *sim.Outcome {
 			before := fileSize(raceLog())
 			o := inner(plan, sched)
 			if o == nil {
